@@ -164,13 +164,14 @@ def deserializeG2 (a : Bytes) : Except Err G2Pt :=
       if b0 % 64 = 0 && allZero t then .ok .inf else .error .point
     else .error .point
 
-/-- `G2Affine::from_uncompressed` (192 bytes): deserialize, then `is_on_curve`. -/
+/-- `G2Affine::from_uncompressed` (192 bytes): deserialize, then `is_on_curve & is_torsion_free`
+(unlike G1, the uncompressed G2 decoder does check the subgroup). -/
 def decodeG2u (a : Bytes) : Except Err G2Pt :=
   if a.length ≠ 192 then .error .eof else
   match deserializeG2 a with
   | .error e => .error e
   | .ok .inf => .ok .inf
-  | .ok (.aff x y) => if onCurveG2 x y then .ok (.aff x y) else .error .point
+  | .ok (.aff x y) => if onCurveG2 x y && inSubgroupG2 x y then .ok (.aff x y) else .error .point
 
 def encodeG2c : G2Pt → Bytes
   | .inf => 192 :: List.replicate 95 0
